@@ -208,17 +208,22 @@ def _invoke_body(c):
             self.pid = 4242
             self.returncode = None
             self.preexec_fn = preexec_fn
+            self.sinks = (stdout, stderr)
             popens.append(self)
 
         def communicate(self, timeout=None):
+            # like the real Popen: only piped streams are handed back
             self.returncode = c['rc']
-            return _Bytes(c['out']), _Bytes(c['err'])
+            return (_Bytes(c['out']) if self.sinks[0] == -1 else None,
+                    _Bytes(c['err']) if self.sinks[1] == -1 else None)
 
         def kill(self):
             pass
 
     class FakeSubprocess:
         PIPE = -1
+        STDOUT = -2
+        DEVNULL = -3
         Popen = FakePopen
 
         class TimeoutExpired(Exception):
@@ -246,8 +251,10 @@ def _invoke_body(c):
 
     cmd = [c['a0'], c['a1']][:c['ncmd']]
     orig_cmd = list(cmd)
+    ig = c.get('ig', 0)
     _set_args(cmd=cmd, infile=c['infile'], unchecked=c['unchecked'],
-              memout=None, timeout=3.0)
+              memout=None, timeout=3.0, ignore_output=(ig == 1),
+              ignore_out=(ig == 2), ignore_err=(ig == 3))
     saved = (checker.subprocess, checker.resource, tmpfiles.tempfile)
     checker.subprocess = FakeSubprocess
     checker.resource = FakeResource
@@ -282,8 +289,12 @@ def _invoke_body(c):
 
 def make_invoke(maxlen, L, p_unchecked):
     def h(a0: str, a1: str, ncmd: int, infile: str, unchecked: bool, rc: int,
-          out: str, err: str):
+          out: str, err: str, ig: int):
         c = dict(locals())
+        # which output is ignored by the comparison (the record of the run
+        # is complete all the same: the cross check and the golden record
+        # use it)
+        assume(0 <= ig <= 3)
         assume(unchecked == p_unchecked)
         assume(1 <= ncmd <= 2)
         assume(len(a0) <= maxlen and len(a1) <= maxlen)
